@@ -2862,9 +2862,11 @@ def find_multi_page_tutorial_children(
 
     formatted_slug = f"/{slug}"
     if formatted_slug in multi_page_tutorials:
+        # External links in the tutorial's toctree are not steps
+        step_slugs = [child["slug"] for child in children if "slug" in child]
         result[slug] = {
-            "total_steps": len(children),
-            "slugs": [child["slug"] for child in children],
+            "total_steps": len(step_slugs),
+            "slugs": step_slugs,
         }
 
     for child in children:
